@@ -169,7 +169,7 @@ def run(run):
                              ["ast write %s:%d %s %s (%s)" % (f["file"], f["line"], f["fn"], f["lhs"], f["how"]) for f in (shared + local)[:2]] + run.cov["samples"]
     return run.finish(
         level="proof",
-        rule="static: every value.Discard call site of lib/query and lib/value and every assignment / copy / sort of lib/query reaching through a parser.* value, checked by kernel evaluation; dynamic: expressions generated over every scalar function of the Functions map (argument types found by probing), arithmetic, comparison, logic, CASE, IN, BETWEEN, LIKE, IS, ANY/ALL, casts, in SELECT / WHERE / GROUP BY+aggregates / DISTINCT / analytic functions / JOIN / subqueries / UNION, each evaluated twice as plain statement, WHILE body, user-defined function body and prepared statement over 240 rows at @@CPU 4, plus re-reading tables, cursor rows and variables after unrelated statements, alternately with and without Discard poisoning (a fixed corpus incl. COUNT(*) OVER, NTH_VALUE, ORDER BY / PARTITION BY on text columns, comma-separated FROM lists and functions over datetime-typed temp-view cells / variables runs first in both modes; the generated kinds include those two shapes as well, plus: rows held by a cursor / derived temporary view / variable re-read after UPDATE, DELETE, REPLACE, ALTER on the base table and the base table after ROLLBACK (laws reread:held_rows, rollback_restores); adding a column (JSON_OBJECT over column references in every order, NOW, list aggregates WITHIN GROUP, analytic list functions, generated expressions) must leave the other columns of the result unchanged (law extra_column_changes_others); a statement that reads one WITH table twice (two scalar sub-queries, outer query + sub-query, UNION ALL) after an in-place step of the first read must give for the second read what a fresh read gives (law reread:inline_table); every built-in with NULL in each argument position on the main goroutine followed by a probe of the value pools (no object handed to two allocations) and, with poisoning on, by the hook's log of Discards of already discarded objects (law double_discard); DISPOSE of variables whose value object is shared with a table cell / cursor row / literal of a loop or function body / another variable, then same-type allocations and a re-read; user-defined aggregates followed by a probe of csvq's block / node pools (pairwise distinct, empty: pool_no_alias) and by a function with nested blocks compared with its results in the fresh process (repeat_eval:after_uda)); non-trivial = distinct (kind, statement form, error?, result-length class)",
+        rule="static: every value.Discard call site of lib/query and lib/value and every assignment / copy / sort of lib/query reaching through a parser.* value, checked by kernel evaluation; dynamic: expressions generated over every scalar function of the Functions map (argument types found by probing), arithmetic, comparison, logic, CASE, IN, BETWEEN, LIKE, IS, ANY/ALL, casts, in SELECT / WHERE / GROUP BY+aggregates / DISTINCT / analytic functions / JOIN / subqueries / UNION, each evaluated twice as plain statement, WHILE body, user-defined function body and prepared statement over 240 rows at @@CPU 4, plus re-reading tables, cursor rows and variables after unrelated statements, alternately with and without Discard poisoning (a fixed corpus incl. COUNT(*) OVER, NTH_VALUE, ORDER BY / PARTITION BY on text columns, comma-separated FROM lists and functions over datetime-typed temp-view cells / variables runs first in both modes; the generated kinds include those two shapes as well, plus: rows held by a cursor / derived temporary view / variable re-read after UPDATE, DELETE, REPLACE, ALTER on the base table and the base table after ROLLBACK (laws reread:held_rows, rollback_restores); adding a column (JSON_OBJECT over column references in every order, NOW, list aggregates WITHIN GROUP, analytic list functions, generated expressions) must leave the other columns of the result unchanged (law extra_column_changes_others); a statement that reads one WITH table twice (two scalar sub-queries, outer query + sub-query, UNION ALL) after an in-place step of the first read must give for the second read what a fresh read gives (law reread:inline_table); every built-in with NULL in each argument position on the main goroutine followed by a probe of the value pools (no object handed to two allocations) and, with poisoning on, by the hook's log of Discards of already discarded objects (law double_discard); DISPOSE of variables whose value object is shared with a table cell / cursor row / literal of a loop or function body / another variable, then same-type allocations and a re-read; unary plus / minus over every numeric class compared with multiplication by 1 / -1 and kept in variables across further allocations (law unary_identity); UPDATE … FROM / DELETE … FROM over one-to-many joins followed by single-record statements whose effect identifies the record touched (law dml_targets); user-defined aggregates followed by a probe of csvq's block / node pools (pairwise distinct, empty: pool_no_alias) and by a function with nested blocks compared with its results in the fresh process (repeat_eval:after_uda)); non-trivial = distinct (kind, statement form, error?, result-length class)",
         trusted_base=BASE_TRUST + [
             "extract/discardfacts: conservative syntactic facts (go/ast + go/types); callees are not analysed",
             "sync.Pool modelled as a free list (Csvq/Model/Pool.lean)"],
